@@ -302,6 +302,8 @@ impl BlockManager {
                 if let Some(id) = state.clean_blocks.pop_front() {
                     let block = this.inner.blocks[id as usize].clone();
                     state.writing_blocks.insert(id);
+                    #[cfg(feature = "verif")]
+                    crate::verif::block_event(crate::verif::BlockEvent::Handed(id));
                     this.inner.metrics.storage_block_engine_block_clean.decrease(1);
                     this.inner.metrics.storage_block_engine_block_writing.increase(1);
                     this.reclaim_if_needed(&mut state);
@@ -309,6 +311,8 @@ impl BlockManager {
                 } else {
                     let (tx, rx) = oneshot::channel();
                     state.clean_block_waiters.push(tx);
+                    #[cfg(feature = "verif")]
+                    crate::verif::block_event(crate::verif::BlockEvent::Wait);
                     // Nobody else may be around to start a reclaim (e.g. right after recovering a device without
                     // any clean block): make sure the waiter will be served.
                     this.reclaim_if_needed(&mut state);
@@ -325,6 +329,8 @@ impl BlockManager {
     pub fn on_writing_finish(&self, block: Block) {
         let mut state = self.inner.state.write().unwrap();
         state.writing_blocks.remove(&block.id());
+        #[cfg(feature = "verif")]
+        crate::verif::block_event(crate::verif::BlockEvent::Finished(block.id()));
         self.inner.metrics.storage_block_engine_block_writing.decrease(1);
         let inserted = state.evictable_blocks.insert(block.id());
         self.inner.metrics.storage_block_engine_block_evictable.increase(1);
@@ -363,7 +369,11 @@ impl BlockManager {
         let mut state = self.inner.state.write().unwrap();
         state.reclaiming_blocks.remove(&block.id());
         self.inner.metrics.storage_block_engine_block_reclaiming.decrease(1);
+        #[cfg(feature = "verif")]
+        crate::verif::block_event(crate::verif::BlockEvent::ReclaimDone(block.id()));
         if let Some(waiter) = state.clean_block_waiters.pop() {
+            #[cfg(feature = "verif")]
+            crate::verif::block_event(crate::verif::BlockEvent::Handed(block.id()));
             self.inner.metrics.storage_block_engine_block_writing.increase(1);
             let _ = waiter.send(block);
         } else {
@@ -384,6 +394,8 @@ impl BlockManager {
             && let Some(block) = self.evict(state)
         {
             state.reclaiming_blocks.insert(block.id());
+            #[cfg(feature = "verif")]
+            crate::verif::block_event(crate::verif::BlockEvent::ReclaimStart(block.id()));
             self.inner.metrics.storage_block_engine_block_reclaiming.increase(1);
             let block = ReclaimingBlock {
                 block_manager: self.clone(),
